@@ -125,13 +125,35 @@ def obligations(tier, sc):
                           symbolic="", bound="", out="", oracle="", assumptions=[])))
 
     # ---- (3) ovnisort on arbitrary bytes
-    smx = 48 if tier == "quick" else 60
-    for mode in ("winsort", "check"):
+    sort_srcs = ["src/rt/ovni.c", "src/emu/stream.c", "src/emu/path.c", "src/parson.c"]
+
+    def sort_unwindset(k):
+        return ["%s.%d:%d" % (f, i, k) for f in ("find_min_clock", "count_events", "index_events", "write_events", "rebuild_ring", "ring_check",
+                                                 "find_destination", "stream_winsort", "write_stream", "stream_check", "execute_sort_plan", "sort_buf")
+                for i in (0, 1, 2)]
+
+    def sort_ob(name, mx, defs, **kw):
+        return Obligation(name=name, harness="C19/sort.c", defines=["MAXSZ=%d" % mx] + defs, srcs=sort_srcs,
+                          unwind=mx + 2, unwindset=sort_unwindset(mx // 12 + 2), timeout=1500, native_cflags=NATIVE_GC,
+                          desc=dict(functions=[], symbolic="", bound="", out="", oracle="", assumptions=[]), **kw)
+
+    # one sort plan from the state stream_winsort() is in at a closing marker: (first region event, closing marker, look-back size)
+    plans = [(40, 1, 2, 6), (48, 1, 3, 6), (48, 2, 3, 2)] if tier == "quick" else \
+            [(48, 1, 2, 6), (48, 1, 3, 6), (48, 2, 3, 2), (48, 2, 3, 6), (48, 1, 3, 2), (56, 1, 3, 6), (56, 2, 3, 3)]
+    for mx, a, b, rs in plans:
+        wit = (["W_SORTED"] if rs >= b + 2 else []) + (["W_CANNOT"] if rs <= 2 else [])
+        obs.append(sort_ob("S_sortplan_%d_a%d_b%d_r%d" % (mx, a, b, rs), mx,
+                           ["PLANMODE", "PA=%d" % a, "PB=%d" % b, "RSIZE=%d" % rs] + wit + kf("KF_SORT_CLOCK63")))
+    obs.append(sort_ob("S_ovnisort_check", 48 if tier == "quick" else 64, ["CHECKMODE"]))
+    if tier == "thorough":
+        obs.append(sort_ob("S_ovnisort_winsort", 36, kf("KF_SORT_CLOCK63")))
+
+    # ---- (4)+(5) the tools' own files: main() exit status, ovnidump emit (hex dump), ovnitop accum/report
+    for tool, extra_defs, info in (("dump", ["JMAX=16"], False), ("top", [], False), ("sort", [], False), ("dump", ["REGISTER_MAY_FAIL"], True)):
         obs.append(Obligation(
-            name="S_ovnisort_%s" % mode, harness="C19/sort.c",
-            defines=["MAXSZ=%d" % smx] + (["CHECKMODE"] if mode == "check" else kf("KF_SORT_CLOCK63")),
-            srcs=["src/rt/ovni.c", "src/emu/stream.c", "src/emu/path.c", "src/parson.c"],
-            unwind=smx + 2, timeout=1500, native_cflags=NATIVE_GC,
+            name="M_main_ovni%s%s" % (tool, "_register_fails" if info else ""), harness="C19/mains.c", defines=["TOOL_%s" % tool] + extra_defs,
+            srcs=["src/rt/ovni.c"], incdirs=UTHASH, unwind=34, timeout=900, native_cflags=NATIVE_GC, info_only=info,
+            unwindset=(["stream_winsort.0:2", "stream_winsort.1:2", "stream_winsort.2:2", "stream_check.0:2", "process_trace.0:3"] if tool == "sort" else []), witness=not info,
             desc=dict(functions=[], symbolic="", bound="", out="", oracle="", assumptions=[])))
 
     # ---- (2) ovnidump's decoder on an arbitrary event carrying a listed code
